@@ -182,6 +182,13 @@ func vxErr(msg string) error                 { panic("vx") }
 func vxCatch(f func()) bool                  { panic("vx") }
 `
 
+type overlayFlag []string
+
+func (o *overlayFlag) String() string     { return strings.Join(*o, ",") }
+func (o *overlayFlag) Set(v string) error { *o = append(*o, v); return nil }
+
+var extraOverlay overlayFlag
+
 type loaded struct {
 	h    *Harness
 	cfg  *Config
@@ -212,6 +219,14 @@ func loadHarness(h *Harness, tier string, repo string) (*loaded, error) {
 			return nil, err
 		}
 		overlay[filepath.Join(repo, rel)] = b
+	}
+	for _, kv := range extraOverlay {
+		f := strings.SplitN(kv, "=", 2)
+		b, err := os.ReadFile(f[1])
+		if err != nil {
+			return nil, err
+		}
+		overlay[filepath.Join(repo, f[0])] = b
 	}
 	mode := packages.NeedName | packages.NeedFiles | packages.NeedCompiledGoFiles | packages.NeedImports | packages.NeedTypes | packages.NeedTypesSizes | packages.NeedSyntax | packages.NeedTypesInfo
 	cfg := &packages.Config{Mode: mode, Dir: repo, Env: env, Overlay: overlay}
@@ -469,6 +484,7 @@ func main() {
 	known := flag.String("known", "/verif/known-findings.txt", "known findings file")
 	cross := flag.Bool("cross", true, "cross-check assertion queries with other solvers in thorough tier")
 	verbose := flag.Bool("v", false, "verbose")
+	flag.Var(&extraOverlay, "overlay", "repo-relative-path=replacement-file (repeatable; mutation testing)")
 	flag.Parse()
 	os.Setenv("PATH", "/opt/veriftools/go1.27.0/bin:"+os.Getenv("PATH"))
 	if *qto == 0 {
